@@ -393,10 +393,10 @@ def buildAddl (prim : PT → Str → PR) (props : List (Str × Str)) (a : PS) : 
       | .nil => buildAddl prim props a rest
       | .val v => (buildAddl prim props a rest).map ((k, v) :: ·)
 
-/-- makeObject for a flat object schema: declared properties first, then the additionalProperties loop over
-every request key. `shadow` = the code's behaviour: that loop also re-decodes *declared* properties with the
-additionalProperties schema (the specification side passes `false`: undeclared keys only). -/
-def makeObject (prim : PT → Str → PR) (shadow : Bool) (props : List (Str × Str)) (sprops : List (Str × PS)) (addl : Option PS) :
+/-- makeObject for a flat object schema: declared properties first, then buildResObj's additionalProperties loop
+over the request keys that are NOT declared (`if _, declared := schema.Value.Properties[k]; declared { continue }`,
+commit 997bea5). The two key sets are disjoint, so the Go map `resultMap` is the concatenation. -/
+def makeObject (prim : PT → Str → PR) (props : List (Str × Str)) (sprops : List (Str × PS)) (addl : Option PS) :
     Option (List (Str × PV)) :=
   match buildProps prim props sprops with
   | none => none
@@ -404,16 +404,16 @@ def makeObject (prim : PT → Str → PR) (shadow : Bool) (props : List (Str × 
     match addl with
     | none => some base
     | some a =>
-      match buildAddl prim props a ((dedup (props.map Prod.fst)).filter (fun k => shadow || !hasKey k sprops)) with
+      match buildAddl prim props a ((dedup (props.map Prod.fst)).filter (fun k => !hasKey k sprops)) with
       | none => none
-      | some extra => some (base.filter (fun kv => !hasKey kv.1 extra) ++ extra)
+      | some extra => some (base ++ extra)
 
 /-- object result of the path/header/cookie decoders (`val, ok, err` with a typed-nil map on error) -/
-def objOut (prim : PT → Str → PR) (shadow : Bool) (found : Bool) (src pd vd : Str) (sprops : List (Str × PS)) (addl : Option PS) : Out :=
+def objOut (prim : PT → Str → PR) (found : Bool) (src pd vd : Str) (sprops : List (Str × PS)) (addl : Option PS) : Out :=
   match propsFromString src pd vd with
   | none => ⟨.nilObj, found, some .parse⟩
   | some props =>
-    match makeObject prim shadow props sprops addl with
+    match makeObject prim props sprops addl with
     | none => ⟨.nilObj, found, some .parse⟩
     | some kvs => ⟨.obj kvs, found, none⟩
 
@@ -482,7 +482,7 @@ def pathArr (prim : PT → Str → PR) (name : Str) (st : Sty) (ex : Bool) (r : 
       | none => ⟨.nil, true, some .parse⟩
       | some src => arrOut true (parseArr prim t (splitOn delim src))
 
-def pathObj (prim : PT → Str → PR) (shadow : Bool) (name : Str) (st : Sty) (ex : Bool) (r : Req)
+def pathObj (prim : PT → Str → PR) (name : Str) (st : Sty) (ex : Bool) (r : Req)
     (sprops : List (Str × PS)) (addl : Option PS) : Out :=
   match pathObjFmt name st ex with
   | none => badMethodObj
@@ -492,7 +492,7 @@ def pathObj (prim : PT → Str → PR) (shadow : Bool) (name : Str) (st : Sty) (
     | some raw =>
       match cutPrefix raw pre with
       | none => ⟨.nilObj, true, some .parse⟩
-      | some src => objOut prim shadow true src pd vd sprops addl
+      | some src => objOut prim true src pd vd sprops addl
 
 /-! ## urlValuesDecoder -/
 
@@ -533,7 +533,7 @@ resolves in the result -/
 def queryObjFound {β γ : Type} (sprops : List (Str × β)) (props : List (Str × Str)) (val : List (Str × γ)) : Bool :=
   !sprops.isEmpty && props.any (fun kv => hasKey kv.1 sprops || hasKey kv.1 val)
 
-def queryObj (prim : PT → Str → PR) (shadow : Bool) (absentAware : Bool) (name : Str) (st : Sty) (ex : Bool) (r : Req)
+def queryObj (prim : PT → Str → PR) (absentAware : Bool) (name : Str) (st : Sty) (ex : Bool) (r : Req)
     (sprops : List (Str × PS)) (addl : Option PS) : Out :=
   if st ≠ .form then badMethodObj else
   -- specification side only (`absentAware`): an exploded object none of whose declared properties occurs in the
@@ -551,7 +551,7 @@ def queryObj (prim : PT → Str → PR) (shadow : Bool) (absentAware : Bool) (na
   | none => ⟨.nilObj, false, some .parse⟩
   | some none => absentObj
   | some (some props) =>
-    match makeObject prim shadow props sprops addl with
+    match makeObject prim props sprops addl with
     | none => ⟨.nilObj, false, some .parse⟩
     | some kvs => ⟨.obj kvs, queryObjFound sprops props kvs, none⟩
 
@@ -765,11 +765,11 @@ def headerArr (prim : PT → Str → PR) (st : Sty) (r : Req) (t : PT) : Out :=
   | none => ⟨.nil, headerFound r, none⟩
   | some raw => arrOut true (parseArr prim t (splitOn [','] raw))
 
-def headerObj (prim : PT → Str → PR) (shadow : Bool) (st : Sty) (ex : Bool) (r : Req) (sprops : List (Str × PS)) (addl : Option PS) : Out :=
+def headerObj (prim : PT → Str → PR) (st : Sty) (ex : Bool) (r : Req) (sprops : List (Str × PS)) (addl : Option PS) : Out :=
   if st ≠ .simple then badMethodObj else
   match headerRaw r with
   | none => ⟨.nilObj, headerFound r, none⟩
-  | some raw => objOut prim shadow true raw [','] (if ex then ['='] else [',']) sprops addl
+  | some raw => objOut prim true raw [','] (if ex then ['='] else [',']) sprops addl
 
 def cookiePrim (prim : PT → Str → PR) (st : Sty) (r : Req) (t : PT) : Out :=
   if st ≠ .form then badMethod else
@@ -784,12 +784,12 @@ def cookieArr (prim : PT → Str → PR) (explodeBad : Bool) (st : Sty) (ex : Bo
   | none => absent
   | some raw => arrOut true (parseArr prim t (splitOn [','] raw))
 
-def cookieObj (prim : PT → Str → PR) (shadow : Bool) (explodeBad : Bool) (st : Sty) (ex : Bool) (r : Req)
+def cookieObj (prim : PT → Str → PR) (explodeBad : Bool) (st : Sty) (ex : Bool) (r : Req)
     (sprops : List (Str × PS)) (addl : Option PS) : Out :=
   if st ≠ .form || (explodeBad && ex) then badMethodObj else
   match r.cookie with
   | none => absentObj
-  | some raw => objOut prim shadow true raw [','] [','] sprops addl
+  | some raw => objOut prim true raw [','] [','] sprops addl
 
 /-! ## decodeStyledParameter / decodeValue -/
 
@@ -797,11 +797,10 @@ def cookieObj (prim : PT → Str → PR) (shadow : Bool) (explodeBad : Bool) (st
 structure Flavour where
   prim : PT → Str → PR
   cookieExplodeBad : Bool
-  addlShadow : Bool
   absentAware : Bool
 
-def impl : Flavour := ⟨parsePrim, true, true, false⟩
-def spec : Flavour := ⟨specPrim, false, false, true⟩
+def impl : Flavour := ⟨parsePrim, true, false⟩
+def spec : Flavour := ⟨specPrim, false, true⟩
 
 def decodeLeaf (fl : Flavour) (c : Cell) (name : Str) (r : Req) : Leaf → Out
   | .prim ps => match c.loc with
@@ -815,18 +814,18 @@ def decodeLeaf (fl : Flavour) (c : Cell) (name : Str) (r : Req) : Leaf → Out
     | .header => headerArr fl.prim c.style r items.t
     | .cookie => cookieArr fl.prim fl.cookieExplodeBad c.style c.explode r items.t
   | .obj sprops _ addl => match c.loc with
-    | .path => pathObj fl.prim fl.addlShadow name c.style c.explode r sprops addl
+    | .path => pathObj fl.prim name c.style c.explode r sprops addl
     | .query => if c.style = .deepObject then queryDeepFlat fl.prim name r sprops
-                else queryObj fl.prim fl.addlShadow fl.absentAware name c.style c.explode r sprops addl
-    | .header => headerObj fl.prim fl.addlShadow c.style c.explode r sprops addl
-    | .cookie => cookieObj fl.prim fl.addlShadow fl.cookieExplodeBad c.style c.explode r sprops addl
+                else queryObj fl.prim fl.absentAware name c.style c.explode r sprops addl
+    | .header => headerObj fl.prim c.style c.explode r sprops addl
+    | .cookie => cookieObj fl.prim fl.cookieExplodeBad c.style c.explode r sprops addl
   | .deep sprops _ => match c.loc, c.style with
     | .query, .deepObject => queryDeep fl.prim name r sprops
-    | .query, .form => queryObj fl.prim fl.addlShadow fl.absentAware name c.style c.explode r [] none   -- never generated
+    | .query, .form => queryObj fl.prim fl.absentAware name c.style c.explode r [] none   -- never generated
     | .query, _ => badMethodObj
-    | .path, _ => pathObj fl.prim fl.addlShadow name c.style c.explode r [] none
-    | .header, _ => headerObj fl.prim fl.addlShadow c.style c.explode r [] none
-    | .cookie, _ => cookieObj fl.prim fl.addlShadow fl.cookieExplodeBad c.style c.explode r [] none
+    | .path, _ => pathObj fl.prim name c.style c.explode r [] none
+    | .header, _ => headerObj fl.prim c.style c.explode r [] none
+    | .cookie, _ => cookieObj fl.prim fl.cookieExplodeBad c.style c.explode r [] none
 
 /-- decodeStyledParameter's early exits: empty PathParams / empty query -/
 def earlyAbsent (c : Cell) (r : Req) : Bool :=
@@ -1145,13 +1144,6 @@ def leafEnumGoType : Leaf → Bool
     | .prim ps => psEnumInt32 ps | .arr it => psEnumInt32 it | .obj sub _ => sub.any (fun x => psEnumInt32 x.2))
 
 def EnumGoType (p : Param) : Bool := (schLeaves p.schema).any leafEnumGoType
-
-/-- a declared property whose schema differs from the additionalProperties schema: the code decodes it with the latter -/
-def leafAddlShadow : Leaf → Bool
-  | .obj sprops _ (some a) => sprops.any (fun kv => kv.2 ≠ a)
-  | _ => false
-
-def AddlShadow (p : Param) : Bool := (schLeaves p.schema).any leafAddlShadow
 
 /-- query, form, explode=true, an object schema without additionalProperties schema, other query parameters
 present but none of the object's declared properties: the parameter is absent, the code decodes `{}` -/
